@@ -100,6 +100,29 @@ DocTree(content, args, prefix, inclver) ==
 DocEvents(content, args, prefix, inclver) ==
   <<Ev("other", "doctype", <<>>, <<>>)>> \o ElementView(DocTree(content, args, prefix, inclver))
 
+-----------------------------------------------------------------------------
+(* Code-shaped: HTMLDocument._gen_html_tag_tree and _hoist_head_content, operating on *)
+(* the tagified content with its dependency nodes still in place (the renderer skips  *)
+(* them later: RenderedView).  TLC checks RenderedView(GenTreeCode(...)) = DocTree(...) *)
+HoistCode(x, prefix, inclver) ==
+  LET kids == x.c
+      heads == {i \in 1..Len(kids) : kids[i].k = "tag" /\ kids[i].name = "head"}
+      \* `if head_index is None: res.insert(0, Tag("head"))`
+      kids1 == IF heads = {} THEN <<Tag("head", <<>>, <<>>)>> \o kids ELSE kids
+      h == IF heads = {} THEN 1 ELSE Min(heads)
+      deps == Resolved(<<x>>)                                   \* x.get_dependencies()
+      filled == <<Tag("meta", <<A("charset", S_utf8)>>, <<>>)>>   \* head.insert(0, meta charset)
+                \o kids1[h].c
+                \o (IF deps = <<>> THEN <<>> ELSE <<Tag("script", <<A("type", S_htmldeps)>>, <<Text(Listing(deps))>>)>>)
+                \o FlattenSeq([i \in 1..Len(deps) |-> DepMarkup(deps[i], prefix, inclver)])
+  IN [x EXCEPT !.c = [kids1 EXCEPT ![h] = [kids1[h] EXCEPT !.c = filled]]]
+GenTreeCode(content, args, prefix, inclver) ==
+  IF IsLone(content, "html")
+  THEN HoistCode([content[1] EXCEPT !.attrs = MergeArgs(@, args)], prefix, inclver)
+  ELSE LET body == IF IsLone(content, "body") THEN content[1] ELSE Tag("body", <<>>, content)
+       IN HoistCode(Tag("html", args, <<Tag("head", <<>>, <<>>), body>>), prefix, inclver)
+RenderedView(x) == NoDeps(x)
+
 \* consequences stated by C11, checked on the expected tree itself (design level)
 RECURSIVE CountTags(_, _)
 CountTags(x, nm) == (IF x.k = "tag" /\ x.name = nm THEN 1 ELSE 0)
